@@ -18,7 +18,7 @@ RULE = (
     "case = ~10 (task, submitter configuration) pairs: task from {Describe(generated value incl. sets/dicts/numpy), "
     "closure task pickled by value, xor-group task, two-output task, generated workflow}; submitter with worker in "
     "{debug, cf(n_procs), slurm(sbatch_args, poll_delay), sge(qsub_args, ...)}, optional read-only caches, audit flags, "
-    "max_concurrent, propagate_rerun.  Session A (fresh interpreter) builds the Job, records checksum + public state, "
+    "max_concurrent, propagate_rerun, task hooks that log their calls.  Session A (fresh interpreter) builds the Job, records checksum + public state, "
     "cloudpickles it and runs the same task in-session for reference; session B (other PYTHONHASHSEED) unpickles it, "
     "compares checksum/state and runs it through load_and_run; session C (third hash seed) reads the result file back.  "
     "Every job of the simloop checks additionally crosses cp.dumps -> worker process -> result file -> parent.  "
@@ -28,8 +28,8 @@ COMPONENTS = {
     "real": ["Job.__getstate__/__setstate__", "Submitter.__getstate__/__setstate__", "Worker/ConcurrentFuturesWorker/SlurmWorker/SgeWorker __getstate__/__setstate__", "Result.__getstate__/__setstate__", "load_and_run / load_job", "cloudpickle", "real interpreters with different hash seeds"],
     "stub": ["nothing inside a session"],
 }
-ASSUMPTIONS = ["'equal public state' = worker type and its attrs fields (minus loop/pool/internal dicts), submitter cache_root/readonly_caches/max_concurrent/propagate_rerun/clean_stale_locks/audit flags"]
-PROBES = ["by_value_function", "workflow_job", "slurm_config", "sge_config", "cf_config", "readonly_caches", "audit_on"]
+ASSUMPTIONS = ["'equal public state' = worker type and its attrs fields (minus loop/pool/internal dicts), submitter cache_root/readonly_caches/max_concurrent/propagate_rerun/clean_stale_locks/audit flags, names of the four job hooks"]
+PROBES = ["hooks_installed", "by_value_function", "workflow_job", "slurm_config", "sge_config", "cf_config", "readonly_caches", "audit_on"]
 N = {"quick": 16, "thorough": 300}
 JOBS = 2
 CASE_WALL = 300
@@ -103,11 +103,14 @@ def run_case(case, ch, workdir):
             sub["max_concurrent"] = ch.randint(1, 4, "mc")
         if ch.chance(1, 4, "prop"):
             sub["propagate_rerun"] = False
+        hooks = tk != "wf" and ch.chance(1, 2, "hooks")
+        if hooks:
+            probe("hooks_installed")
         sid = f"j{i}"
         pkl = os.path.join(workdir, f"{sid}.pkl")
         descs[sid] = (tspec, sub, nontriv)
-        dump_steps.append({"id": sid, "kind": "job-dump", "task": tspec, "submitter": sub, "cache": os.path.join(workdir, "cacheA"), "refcache": os.path.join(workdir, "refcache"), "pkl": pkl})
-        load_steps.append({"id": sid, "kind": "job-load-run", "pkl": pkl})
+        dump_steps.append({"id": sid, "kind": "job-dump", "task": tspec, "submitter": sub, "cache": os.path.join(workdir, "cacheA"), "refcache": os.path.join(workdir, "refcache"), "pkl": pkl, "hooks": hooks})
+        load_steps.append({"id": sid, "kind": "job-load-run", "pkl": pkl, "hooks": hooks})
     seeds = [ch.randint(1, 4000, "hsA"), ch.randint(4001, 8000, "hsB"), ch.pick([0, 9, 31337], "hsC")]
     outA = c07.run_session(workdir, 0, seeds[0], perm=5, steps=dump_steps, evlog=None)
     outB = c07.run_session(workdir, 1, seeds[1], perm=5, steps=load_steps, evlog=None)
@@ -143,6 +146,8 @@ def run_case(case, ch, workdir):
             violation(res, "state-changed", sig, f"submitter/worker state differs after the round trip: {diff}; {ctx}")
         if b.get("errored") or a["out"] != b["out"]:
             violation(res, "outputs-differ", sig, f"in-session run gave {a['out']}, deserialized job gave {b.get('out')} (errored={b.get('errored')}); {ctx}")
+        if "hooks_called" in a and a["hooks_called"] != b.get("hooks_called"):
+            violation(res, "hooks-differ", sig, f"hooks called for this job in the building session: {a['hooks_called']}, by the deserialized job in another process: {b.get('hooks_called')}; {ctx}")
         if "error" in c:
             violation(res, "result-unreadable", sig, f"session C: {c['error']}; {ctx}")
         elif c:
